@@ -16,6 +16,8 @@ def make_dataset(spec, n=None, seed=None):
     """c16's data set, optionally with some coefficients made constant ("any accumulated data": a floored
     log-energy column has zero variance and its computed variance may round slightly negative)."""
     data = _make_dataset(spec, n=n, seed=seed)
+    if spec.get("all_zero"):
+        data = np.zeros_like(data)  # digital silence / zero padding: every accumulated value is exactly 0
     for j, col in enumerate(spec.get("const") or ()):
         data[:, col % data.shape[1]] = np.asarray(CONST_VALUES[(j + spec.get("const_val", 0)) % len(CONST_VALUES)], dtype=data.dtype)
     return data
@@ -143,6 +145,7 @@ def _data_specs():
             "N": draw(st.sampled_from([1, 2, 3, 5, 8, 50, 100])),
             "const": draw(st.one_of(st.just([]), st.just([]), st.lists(st.integers(0, 4), min_size=1, max_size=2, unique=True))),
             "const_val": draw(st.integers(0, 5)),
+            "all_zero": draw(st.sampled_from([False] * 9 + [True])),
             "m": [draw(mult) for _ in range(F)],
             "s": [draw(st.sampled_from([1e-3, 0.1, 1.0, 1.0, 7.0, 100.0, 1e4])) for _ in range(F)],
             "dtype": draw(st.sampled_from(["f64", "f32"])),
